@@ -17,58 +17,146 @@ FIELDS = {
 }
 
 
+def _single_assigned(fn_node: ast.AST) -> dict:
+    from .pathsym import subst
+    counts: dict = {}
+    for n in ast.walk(fn_node):
+        if isinstance(n, ast.Name) and isinstance(n.ctx, ast.Store):
+            counts[n.id] = counts.get(n.id, 0) + 1
+    single = {}
+    for n in ast.walk(fn_node):
+        if isinstance(n, ast.Assign) and len(n.targets) == 1 and isinstance(n.targets[0], ast.Name) and counts.get(n.targets[0].id) == 1 \
+                and isinstance(n.value, (ast.Name, ast.Attribute)):
+            single[n.targets[0].id] = n.value
+    for _ in range(3):
+        single = {k: subst(v, {k2: v2 for k2, v2 in single.items() if k2 != k}) for k, v in single.items()}
+    return single
+
+
+def _args_by_name(m, call: ast.Call, callee) -> dict:
+    ps = callee.params[1:]
+    given = {ps[i]: a for i, a in enumerate(call.args) if i < len(ps)}
+    given.update({k.arg: k.value for k in call.keywords if k.arg})
+    return given
+
+
 def wiring_rule(ctx: Ctx, rid: str, which=("data", "instruction"), fields=None) -> None:
+    """Constructor arguments are matched to parameters through the callee's signature (keyword or positional), single-assigned
+    alias locals are substituted; which constructor runs under which option is read off the normal form of __init__
+    (conditional values resolved under the option tests), so if/else, guard clauses, helpers and conditional expressions are one form."""
+    from .parsershape import normal_flow
+    from .pathsym import subst
     m = ctx.model
     r = ctx.rule(rid, "each cache constructor keyword is fed from the same-named field of its own options object")
     st = m.method("RiscvArchitecturalState", "__init__", own=True)
     want_fields = {k: v for k, v in FIELDS.items() if fields is None or k in fields}
-    sites = {}
+    single = _single_assigned(st.node)
+    base_init = m.method("BaseCacheMemorySystem", "__init__")
+    ic_init = m.method("InstructionMemoryCacheSystem", "__init__")
+    sites: dict = {}
     for c in calls_in(st.node):
-        fn = ast.unparse(c.func)
-        if fn == "InstructionMemoryCacheSystem":
-            sites["instruction"] = (c, "instruction_cache_options")
-        elif fn == "cache_class" or fn in ("WriteBackMemorySystem", "WriteThroughMemorySystem"):
-            sites["data"] = (c, "data_cache_options")
+        fn = c.func.value if isinstance(c.func, ast.Subscript) else c.func
+        k = m.resolve_class(st.module, fn) if isinstance(fn, (ast.Name, ast.Attribute)) else None
+        name = k.name if k is not None else ast.unparse(fn)
+        if name == "InstructionMemoryCacheSystem":
+            sites.setdefault("instruction", []).append((c, "instruction_cache_options", ic_init))
+        elif name in ("cache_class", "WriteBackMemorySystem", "WriteThroughMemorySystem") or isinstance(fn, ast.IfExp):
+            sites.setdefault("data", []).append((c, "data_cache_options", base_init))
     for w in which:
         if w not in sites:
             raise AnalysisError(f"{rid}: construction site of the {w} cache vanished")
-        c, opt = sites[w]
-        kw = {k.arg: k.value for k in c.keywords}
-        for k, fld in want_fields.items():
-            v = kw.get(k)
-            got = ast.unparse(v) if v is not None else None
-            r.check(got == f"{opt}.{fld}", f"{w}-cache|{k}", st.loc(v) if v is not None else st.loc(c),
-                    f"the {w} cache gets {k}={got}; it must come from {opt}.{fld}")
-        if fields is None or "performance_metrics" in (fields or ()):
-            v = kw.get("performance_metrics")
-            r.check(v is not None and ast.unparse(v) == "self.performance_metrics", f"{w}-cache|performance_metrics", st.loc(c),
-                    f"the {w} cache does not charge its penalties to the state's performance metrics")
-    # enable flags and policy selection
-    txt = " ".join(ast.unparse(st.node).split())
+        for c, opt, callee in sites[w]:
+            kw = _args_by_name(m, c, callee)
+            for k, fld in want_fields.items():
+                v = kw.get(k)
+                got = ast.unparse(subst(v, single)) if v is not None else None
+                r.check(got == f"{opt}.{fld}", f"{w}-cache|{k}", st.loc(v) if v is not None else st.loc(c),
+                        f"the {w} cache gets {k}={got}; it must come from {opt}.{fld}")
+            if fields is None or "performance_metrics" in (fields or ()):
+                v = kw.get("performance_metrics")
+                r.check(v is not None and ast.unparse(subst(v, single)) == f"{st.params[0]}.performance_metrics", f"{w}-cache|performance_metrics", st.loc(c),
+                        f"the {w} cache does not charge its penalties to the state's performance metrics")
+    # enable flags and policy selection: what ends up in self.memory / self.instruction_memory under which option
+    fl = normal_flow(m, st)
+    pr = fl.cprinter
+
+    def built(target: str, assume_src: list) -> set:
+        """classes of the objects stored in `target` when the given tests hold and no ready-made object was passed in"""
+        assume = [ast.parse(t, mode="eval").body for t in assume_src]
+        ab = pr._mk("and", [pr._bool(t) for t in assume])
+        out = set()
+        for e in fl.effects:
+            if e.kind != "store" or not isinstance(e.expr, ast.Assign) or pr.show(e.expr.targets[0]).split("@")[0] != target:
+                continue
+            cb = pr._mk("and", [ab] + [pr._bool(t, pol) for t, pol in e.cond])
+            t = pr._tables([cb])
+            if t is not None and t[1][0] == 0:
+                continue
+            v = pr.resolve_under(e.expr.value, cb)
+            for arm in ([v.body, v.orelse] if isinstance(v, ast.IfExp) else [v]):
+                fn = arm.func if isinstance(arm, ast.Call) else None
+                fn = fn.value if isinstance(fn, ast.Subscript) else fn
+                k = m.resolve_class(st.module, fn) if isinstance(fn, (ast.Name, ast.Attribute)) else None
+                out.add(k.name if k is not None else pr.show(arm))
+        return out
+
+    params = st.params
+    none_mem = [f"{p} is None" for p in ("memory",) if p in params]
+    none_im = [f"{p} is None" for p in ("instruction_memory",) if p in params]
     if "data" in which:
-        r.check("if data_cache_options.enable:" in txt, "data-cache|enable", st.loc(), "the data cache is not enabled by data_cache_options.enable")
-        r.check("if data_cache_options.cache_type == 'wt': cache_class: type[BaseCacheMemorySystem] = WriteThroughMemorySystem else: cache_class = WriteBackMemorySystem" in txt,
-                "data-cache|policy", st.loc(), "write policy selection is no longer {'wt': write-through, else: write-back}")
+        on_wt = built("P0.memory", none_mem + ["data_cache_options.enable", "data_cache_options.cache_type == 'wt'"])
+        on_wb = built("P0.memory", none_mem + ["data_cache_options.enable", "data_cache_options.cache_type != 'wt'"])
+        off = built("P0.memory", none_mem + ["not data_cache_options.enable"])
+        r.check(off == {"Memory"} and on_wt | on_wb <= {"WriteThroughMemorySystem", "WriteBackMemorySystem"} and bool(on_wt), "data-cache|enable", st.loc(),
+                f"the data cache is not enabled by data_cache_options.enable (enabled: {sorted(on_wt | on_wb)}, disabled: {sorted(off)})")
+        r.check(on_wt == {"WriteThroughMemorySystem"} and on_wb == {"WriteBackMemorySystem"}, "data-cache|policy", st.loc(),
+                f"write policy selection is no longer {{'wt': write-through, else: write-back}} ('wt': {sorted(on_wt)}, else: {sorted(on_wb)})")
     if "instruction" in which:
-        r.check("if instruction_cache_options.enable:" in txt, "instruction-cache|enable", st.loc(), "the instruction cache is not enabled by instruction_cache_options.enable")
+        on = built("P0.instruction_memory", none_im + ["instruction_cache_options.enable"])
+        off = built("P0.instruction_memory", none_im + ["not instruction_cache_options.enable"])
+        r.check(on == {"InstructionMemoryCacheSystem"} and off == {"InstructionMemory"}, "instruction-cache|enable", st.loc(),
+                f"the instruction cache is not enabled by instruction_cache_options.enable (enabled: {sorted(on)}, disabled: {sorted(off)})")
     # the policy string is interpreted the same way by every cache system, in __init__ and in reset
     for cn in ("BaseCacheMemorySystem", "InstructionMemoryCacheSystem"):
         if ("data" in which and cn == "BaseCacheMemorySystem") or ("instruction" in which and cn == "InstructionMemoryCacheSystem"):
             f = m.method(cn, "__init__", own=True)
-            t = " ".join(ast.unparse(f.node).split())
-            r.check("= LRU if replacement_strategy == 'lru' else PLRU" in t, f"{cn}|policy-class", f.loc(), f"{cn} no longer maps 'lru' -> LRU, else PLRU")
-            r.check("replacement_strategy=self.replacement_strategy_class" in t, f"{cn}|policy-used", f.loc(), f"{cn} does not build its cache with the selected policy class")
-            r.check("self.miss_penality = miss_penality" in t, f"{cn}|penalty-stored", f.loc(), f"{cn} does not store the configured miss penalty")
+            ffl = normal_flow(m, f)
+            fpr = ffl.cprinter
+            stores = {fpr.show(e.expr.targets[0]).split("@")[0]: e for e in ffl.effects if e.kind == "store" and isinstance(e.expr, ast.Assign)}
+            pc = stores.get("P0.replacement_strategy_class")
+            rs = ast.Name(id="replacement_strategy", ctx=ast.Load())
+            lru = ast.Compare(left=rs, ops=[ast.Eq()], comparators=[ast.Constant(value="lru")])
+            ok = False
+            if pc is not None and "replacement_strategy" in f.params:
+                a_ = fpr.resolve_under(pc.expr.value, fpr._bool(lru))
+                b_ = fpr.resolve_under(pc.expr.value, fpr._bool(lru, False))
+                ok = fpr.show(a_) == "LRU" and fpr.show(b_) == "PLRU"
+            r.check(ok, f"{cn}|policy-class", f.loc(), f"{cn} no longer maps 'lru' -> LRU, else PLRU")
+            cache_calls = [c for c in calls_in(f.node) if isinstance(c.func, (ast.Name, ast.Subscript)) and ast.unparse(c.func.value if isinstance(c.func, ast.Subscript) else c.func) == "Cache"]
+            cinit = m.method("Cache", "__init__")
+            okc = bool(cache_calls) and all(
+                ast.unparse(_args_by_name(m, c, cinit).get("replacement_strategy", ast.Constant(value=None))) == f"{f.params[0]}.replacement_strategy_class"
+                for c in cache_calls)
+            r.check(okc, f"{cn}|policy-used", f.loc(), f"{cn} does not build its cache with the selected policy class")
+            mp = stores.get("P0.miss_penality")
+            r.check(mp is not None and "miss_penality" in f.params and fpr.show(mp.expr.value) == f"P{f.params.index('miss_penality')}" and fpr.show_cond(mp.cond) == "TRUE",
+                    f"{cn}|penalty-stored", f.loc(), f"{cn} does not store the configured miss penalty")
     # RiscvSimulation forwards both option objects
     sim = m.method("RiscvSimulation", "__init__", own=True)
-    t = " ".join(ast.unparse(sim.node).split())
+    sim_calls = [c for c in calls_in(sim.node) if m.resolve_class(sim.module, c.func) is m.cls("RiscvArchitecturalState")] if True else []
+    ssingle = _single_assigned(sim.node)
+
+    def fwd(calls, callee, pname: str, want: str, f) -> bool:
+        return bool(calls) and all(ast.unparse(subst(_args_by_name(m, c, callee).get(pname, ast.Constant(value=None)), ssingle)) == want and want in f.params for c in calls)
+
     if "data" in which:
-        r.check("data_cache_options=data_cache" in t, "simulation|data", sim.loc(), "RiscvSimulation does not forward data_cache")
+        r.check(fwd(sim_calls, st, "data_cache_options", "data_cache", sim), "simulation|data", sim.loc(), "RiscvSimulation does not forward data_cache")
     if "instruction" in which:
-        r.check("instruction_cache_options=instruction_cache" in t, "simulation|instruction", sim.loc(), "RiscvSimulation does not forward instruction_cache")
+        r.check(fwd(sim_calls, st, "instruction_cache_options", "instruction_cache", sim), "simulation|instruction", sim.loc(), "RiscvSimulation does not forward instruction_cache")
     gw = m.func("gui.webgui.get_riscv_simulation")
-    t = " ".join(ast.unparse(gw.node).split())
+    gw_calls = [c for c in calls_in(gw.node) if m.resolve_class(gw.module, c.func) is m.cls("RiscvSimulation")]
+    ssingle = _single_assigned(gw.node)
     if "data" in which:
-        r.check("data_cache=data_cache_options" in t, "webgui|data", gw.loc(), "the web entry point does not forward data_cache_options")
+        r.check(fwd(gw_calls, sim, "data_cache", "data_cache_options", gw), "webgui|data", gw.loc(), "the web entry point does not forward data_cache_options")
     if "instruction" in which:
-        r.check("instruction_cache=instruction_cache_options" in t, "webgui|instruction", gw.loc(), "the web entry point does not forward instruction_cache_options")
+        r.check(fwd(gw_calls, sim, "instruction_cache", "instruction_cache_options", gw), "webgui|instruction", gw.loc(), "the web entry point does not forward instruction_cache_options")
